@@ -126,6 +126,18 @@ def seeded_pipeline(seed, kind, n):
         if st == 'local_after':
             return x.map(lambda v: v).shuffle(reshuffle=True, buffer_size=1, rng=np.random.RandomState(seed + 2))
         raise ValueError(kind)
+    if kind.startswith('mix_'):
+        # a fixed-order input combined with a reshuffling one (either position, method and function style): the
+        # combination changes from epoch to epoch, so it is not ordered
+        _, comb, pos, style = kind.split('_')
+        fixed = lazy_dataset.new({f'f{i}': 100 + i for i in range(n)})
+        rnd = base.shuffle(reshuffle=True, rng=rs).map(lambda v: v)
+        parts = [rnd, fixed] if pos == 'first' else [fixed, rnd]
+        if comb == 'zip':
+            return parts[0].zip(parts[1]) if style == 'm' else lazy_dataset.zip(*parts)
+        if comb == 'concat':
+            return parts[0].concatenate(parts[1]) if style == 'm' else lazy_dataset.concatenate(parts)
+        return parts[0].intersperse(parts[1]) if style == 'm' else lazy_dataset.intersperse(*parts)
     if kind == 'apply_shuffle':
         # a lazily applied ONE-TIME shuffle is drawn anew in every epoch
         return base.apply(lambda d: d.shuffle(rng=rs), lazy=True)
@@ -182,6 +194,8 @@ def run(rep):
             kind = rng.choice(['reshuffle', 'local', 'reshuffle_map_batch', 'two', 'once', 'reshuffle_tile', 'reshuffle_self_concat',
                                'apply_reshuffle', 'apply_reshuffle_map', 'apply_shuffle', 'apply_shuffle_batch', 'apply_choice', 'via_unbatch', 'via_filter', 'via_batch_drop', 'via_items',
                                'via_concat', 'via_zip', 'via_profiled', 'via_local_after'])
+            if rng.random() < 0.25:
+                kind = 'mix_%s_%s_%s' % (rng.choice(['zip', 'concat', 'intersperse']), rng.choice(['first', 'last']), rng.choice(['m', 'f']))
             n = rng.randint(1, 9)
             a = seeded_pipeline(seed, kind, n)
             b = seeded_pipeline(seed, kind, n)
@@ -230,7 +244,7 @@ def run(rep):
             # a dataset whose order changed from one epoch to the next does not call itself ordered
             if len(a_orders) >= 2 and any(o != a_orders[0] for o in a_orders[1:]):
                 flags = []
-                for ds in (a, a.copy()):
+                for ds in (a, a.copy(), a.map(lambda x: x), a.batch(2), a.prefetch(1, 2), a.catch()):
                     try:
                         flags.append(bool(ds.ordered))
                     except Exception:  # noqa
